@@ -24,7 +24,19 @@ TFloorDiv == /\ IsEv("floordiv")
              /\ Judge(Rec.q = FloorDiv(Rec.a, Rec.b))
              /\ UNCHANGED sh
 
-TNext == TPkt \/ TFloorDiv
+(* {"ev":"frame","pkt","v","f","pid","payload","err"}: the payload (packet id + body) of the one frame a
+   connection received for a packet sent through codec.Encoder.WritePacket while another connection was sent
+   a packet of the same kind in the middle of this send; framing / inflating is done by the harness
+   (own VarInt, Go's compress/zlib), err = what could not be framed. *)
+TFrame == /\ IsEv("frame")
+          /\ LET fs == Fields(Rec.pkt, Rec.v, Rec.f)
+                 idb == EncVarInt(Rec.pid)
+             IN Judge(/\ Rec.err = ""
+                      /\ Take(Rec.payload, Len(idb)) = idb
+                      /\ Matches(fs, Drop(Rec.payload, Len(idb))))
+          /\ UNCHANGED sh
+
+TNext == TPkt \/ TFloorDiv \/ TFrame
 TSpec == sh = 0 /\ CursorInit /\ TLCSet(2, 0) /\ TLCSet(3, 0) /\ [][TNext]_<<sh, l>>
 
 AllGood == /\ Accepted
